@@ -396,7 +396,19 @@ def main(pid, fn, level="model_checking"):
     ap.add_argument("tier", nargs="?", default=None)
     ap.add_argument("--replay", default=None)
     a = ap.parse_args(sys.argv[2:] if len(sys.argv) > 1 and re.match(r"^[Cc]\d+$", sys.argv[1]) else sys.argv[1:])
-    ctx = Ctx(pid, tier=a.tier, level=level)
+    seed = None
+    if a.replay:
+        # a replay re-runs the check with the seed and tier recorded next to the failing case; the case files
+        # (trace lines of the failing case, concrete inputs) are in the replay directory for inspection
+        try:
+            with open(os.path.join(a.replay, "violation.json")) as f:
+                info = json.load(f)
+            seed, a.tier = info.get("seed"), info.get("tier", a.tier)
+            print("replaying %s with seed %s tier %s: %s" % (a.replay, seed, a.tier, str(info.get("what"))[:200]))
+        except (OSError, ValueError) as x:
+            print("INFRA: cannot read %s: %s" % (a.replay, x), file=sys.stderr)
+            sys.exit(2)
+    ctx = Ctx(pid, tier=a.tier, seed=seed, level=level)
     try:
         fn(ctx, a)
         rc = ctx.finish()
